@@ -237,6 +237,11 @@ func c03Directed() []struct {
 		mk("const-prop-across-else", decl("x", I(1)), &gen.Stmt{K: "if", E: V("fb"), Body: []*gen.Stmt{decl("t", I(0))}, Else: []*gen.Stmt{asg("x", I(5))}}, ret(bin("+", V("x"), I(1)))),
 		mk("copy-prop-then-overwrite-source", decl("a", V("fi")), decl("b", V("a")), asg("a", I(99)), ret(bin("+", V("b"), V("a")))),
 		mk("copy-prop-reassign-then-overwrite-source", asg("fi", V("fj")), asg("fj", I(8)), ret(V("fi"))),
+		mk("loop-body-always-returns-zero-trip-for", &gen.Stmt{K: "for", Name: "it", E: V("fa"), Body: []*gen.Stmt{ret(V("it"))}}, ret(I(7))),
+		mk("loop-body-always-returns-zero-trip-while", decl("n", I(3)), &gen.Stmt{K: "while", Name: "w", E: bin("<", V("fi"), I(0)), Body: []*gen.Stmt{asg("w", bin("+", V("w"), I(1))), ret(V("n"))}}, ret(bin("+", V("n"), I(4)))),
+		mk("if-both-branches-return-then-code", &gen.Stmt{K: "if", E: V("fb"), Body: []*gen.Stmt{ret(I(5))}, Else: []*gen.Stmt{ret(I(6))}}, ret(I(9))),
+		mk("reassign-const-then-loop-mutation", asg("fi", I(10)), &gen.Stmt{K: "while", Name: "w", E: bin(">", V("fi"), I(7)), Body: []*gen.Stmt{asg("w", bin("+", V("w"), I(1))), asg("fi", bin("-", V("fi"), I(1)))}}, asg("fj", bin("+", V("fi"), I(1))), ret(V("fj"))),
+		mk("const-prop-across-branch-reassign", asg("fi", I(100)), iff(V("fb"), asg("fi", I(4))), asg("fj", bin("+", V("fi"), I(1))), ret(V("fj"))),
 		mk("cse-after-reassignment", decl("a", V("fi")), decl("p", bin("*", V("a"), V("fj"))), asg("a", I(3)), decl("q", bin("*", V("a"), V("fj"))), ret(bin("-", V("p"), V("q")))),
 		mk("licm-zero-trip-loop", decl("s", I(0)), &gen.Stmt{K: "for", Name: "it", E: V("fa"), Body: []*gen.Stmt{asg("s", bin("/", I(10), V("fi")))}}, ret(V("s"))),
 		mk("licm-while-false", decl("s", I(0)), &gen.Stmt{K: "while", Name: "w", E: bin("<", V("w"), V("fi")), Body: []*gen.Stmt{asg("w", bin("+", V("w"), I(1))), asg("s", bin("%", I(7), V("fj")))}}, ret(V("s"))),
